@@ -401,7 +401,7 @@ def run(tier, seed, replay):
                 rel = list(sc["files"])[0]
                 orig_e = "(run_original_seen %s false %s)" % (coqterm.render(sc["auto"]), coqterm.text(sc["files"][rel]))
                 exprs.append("(run_emit %s %s %s %s %s)" % (emitter_e, coqterm.render(l), coqterm.render(q), orig_e, coqterm.text(sc["F"][rel])))
-                nops = 3 if any(k.endswith(".bk") for k in ch) else (1 if ch else 0)
+                nops = 4 if any(k.endswith(".bk") for k in ch) else (1 if ch else 0)      # the backup protocol is four operations: remove tmp, write tmp, two renames
                 hd = (o["rc"] == 1) if c["mode"] == "check" else None
                 expect.append(("emit", c, (nops, hd)))
         else:
